@@ -30,7 +30,7 @@ def check(pid, tier):
     out_lines, violations, machinery = [], [], []
     rng = random.Random(seed())
     fams = (["ring2", "chain3", "fan", "ring2prov", "chain3refine"] if tier == "quick"
-            else ["ring2", "chain3", "fan", "ring2prov", "chain3refine", "ring2refine", "loop3", "ring3"])
+            else ["ring2", "chain3", "fan", "ring2prov", "chain3refine", "ring2refine", "loop3", "ring3", "fanprov"])
     r = mc(fams, INVS, ["Terminates"])
     ev.add_mc("Connect/" + "+".join(fams), r, {"families": fams, "invariants": INVS, "liveness": "Terminates"})
     if not r.ok:
